@@ -16,6 +16,8 @@ RULE = ("random families of 2-3 point-compatible masters (a random exact-domain 
         "has a composite glyph; distinct by family digest + path + options")
 ASSUMPTIONS = ["cu2qu and varLib instancing of sparse composites are environment; their joint behaviour is observed at the hook events"]
 SHARDS = 12
+import os
+TIE_PROB = float(os.environ.get("C09_TIE_PROB", "0.5"))
 
 
 def design_checks(tier):
@@ -39,7 +41,19 @@ def cases(tier, seed):
             pick = [n_ for n_ in names if rng.random() < 0.4] or names[:1]
             sp = gen.perturb_master(rng, {n_: base[n_] for n_ in names}, change_2x2=0.0)
             sparse = {n_: sp[n_] for n_ in pick}
+        # a tie that exists in ONE master only: two consecutive on-curve points coincide (a collapsed notch), in the
+        # other masters they are distinct -- any per-master decision to drop the zero-length segment breaks compatibility
+        if rng.random() < TIE_PROB:
+            which = rng.randrange(nm)
+            for g in masters[which].values():
+                for c in g["cs"]:
+                    idx = [i for i in range(1, len(c)) if c[i][2] == "line" and c[i - 1][2] != "off"]
+                    if idx and rng.random() < 0.7:
+                        i = rng.choice(idx)
+                        c[i][0], c[i][1] = c[i - 1][0], c[i - 1][1]
         kwargs = {}
+        if path == "OTFsFromDS":
+            kwargs["optimizeCFF"] = rng.choice([0, 1])     # (subroutinisation is not meant for interpolatable masters)
         if "TTF" in path and rng.random() < 0.4:
             kwargs["flattenComponents"] = True
         skip = []
@@ -152,6 +166,13 @@ def nontrivial(rec):
 
 
 def classify(rec, pfail, mfail, extra, rep):
+    if pfail == "masters-stay-compatible" and extra and extra[0] == "F-C09-1":
+        rep.known("F-C09-1", "CFF interpolatable path: the last on-curve point of a closed contour coincides with its start point in "
+                             "some masters only (also after the reversal of a mirrored component); the point-to-segment pen then "
+                             "emits the closing lineTo explicitly in those masters only and the charstrings differ in structure")
+        rep.notes.setdefault("known_paths", {})
+        rep.notes["known_paths"][rec["path"]] = rep.notes["known_paths"].get(rec["path"], 0) + 1
+        return "known:F-C09-1"
     if pfail != "none":
         rep.notes.setdefault("witnesses", []).append({"tid": rec["tid"], "clause": pfail, "err": rec.get("err", ""), "path": rec["path"]})
     return None
